@@ -212,6 +212,13 @@ func siteMatches(p *Program, pat string, in ssa.Instruction) (string, bool) {
 			return "call through " + f[1], true
 		}
 		return "", false
+	case "invoke":
+		// `invoke NAME`: a call of the interface method NAME (the receiver is not among the arguments)
+		c, ok := in.(*ssa.Call)
+		if !ok || !c.Call.IsInvoke() || c.Call.Method.Name() != f[1] {
+			return "", false
+		}
+		return "call of interface method " + f[1], true
 	case "closure-calling":
 		// a closure created here whose body (or a closure nested in it) calls the named function
 		mc, ok := in.(*ssa.MakeClosure)
